@@ -23,7 +23,11 @@ func propC06(w *World, r *Report) {
 		"that the budget suffices in a given schedule is numeric and not decided"}
 	runs, err := getThrottleRuns(w)
 	if err != nil {
-		r.Unknown("roles", "throttle.ThrottledRecorder", "-", "role resolution failed: "+err.Error())
+		if strings.HasPrefix(err.Error(), "VIOLATION: ") {
+			r.Fail("X2", "the throttler's budget is a ratelimit bucket with the stated rate and capacity", "-", strings.TrimPrefix(err.Error(), "VIOLATION: "), "")
+		} else {
+			r.Unknown("roles", "throttle.ThrottledRecorder", "-", "role resolution failed: "+err.Error())
+		}
 		return
 	}
 	run := runs.fault
@@ -276,7 +280,11 @@ func propC05(w *World, r *Report) {
 	r.Assumptions = []string{"the inequality itself (juju/ratelimit arithmetic, clock, quantisation) is library/numeric and not decided", "go-config's ThermalThrottler field tags map the TOML keys (dependency)"}
 	runs, err := getThrottleRuns(w)
 	if err != nil {
-		r.Unknown("roles", "throttle.ThrottledRecorder", "-", "role resolution failed: "+err.Error())
+		if strings.HasPrefix(err.Error(), "VIOLATION: ") {
+			r.Fail("T2", "the throttler's budget is a ratelimit bucket with the stated rate and capacity", "-", strings.TrimPrefix(err.Error(), "VIOLATION: "), "")
+		} else {
+			r.Unknown("roles", "throttle.ThrottledRecorder", "-", "role resolution failed: "+err.Error())
+		}
 		return
 	}
 	run := runs.fault
@@ -496,8 +504,21 @@ func checkThrottleWiringAs(w *World, r *Report, rule string, withConfig bool) {
 		if a.Op == "call" && len(a.Args) >= 3 {
 			r.Check(a.Args[0].String() == b.String(), rule, "the throttler wraps the same file recorder that is used when not activated", pos, a.Args[0].String()+" vs "+b.String())
 			wantMin := tadd(tleaf("recorder.RecorderConfig.MinSecs@main.Config.Recorder@param:main.Config"), tleaf("recorder.RecorderConfig.PreviewSecs@main.Config.Recorder@param:main.Config")).String()
-			r.Check(a.Args[2].String() == wantMin, rule, "minimum recording length = MinSecs + PreviewSecs", pos, a.Args[2].String()+" (want "+wantMin+")")
-			r.Check(strings.Contains(a.Args[1].String(), "main.Config.Throttler@param:main.Config"), rule, "throttler configured from Config.Throttler", pos, a.Args[1].String())
+			// the arguments are told apart by what they are, not by their position (the constructor's parameter order is
+			// the package's own business): the only integer-valued argument is the minimum length, the only
+			// configuration-valued one the throttler section
+			gotMin, gotCfg := "<no integer argument>", "<no configuration argument>"
+			for _, x := range a.Args[1:] {
+				xs := x.String()
+				switch {
+				case strings.Contains(xs, "main.Config.Throttler@") || strings.Contains(xs, "ThermalThrottler"):
+					gotCfg = xs
+				case strings.Contains(xs, "RecorderConfig.") || x.Op == "const" || x.Op == "add" || x.Op == "mul" || x.Op == "poly":
+					gotMin = xs
+				}
+			}
+			r.Check(gotMin == wantMin, rule, "minimum recording length = MinSecs + PreviewSecs", pos, gotMin+" (want "+wantMin+")")
+			r.Check(strings.Contains(gotCfg, "main.Config.Throttler@param:main.Config"), rule, "throttler configured from Config.Throttler", pos, gotCfg)
 		}
 		dyn := dynamicTypes(motionArg, 0)
 		for _, d := range dyn {
